@@ -259,6 +259,80 @@ class _IsinstanceSplit(ast.NodeTransformer):
         return node
 
 
+class _FlipTernary(ast.NodeTransformer):
+    """a if c else b  ->  b if not c else a"""
+
+    def visit_IfExp(self, node):
+        self.generic_visit(node)
+        return ast.copy_location(ast.IfExp(test=ast.UnaryOp(op=ast.Not(), operand=node.test), body=node.orelse, orelse=node.body), node)
+
+
+class _UnpackInBody(ast.NodeTransformer):
+    """for a, b in xs: BODY  ->  for item in xs: a, b = item; BODY"""
+
+    def __init__(self):
+        self.k = 0
+
+    def visit_For(self, node):
+        self.generic_visit(node)
+        if isinstance(node.target, ast.Tuple):
+            self.k += 1
+            name = f"loop_item_{self.k}"
+            tgt = node.target
+            node.target = ast.Name(id=name, ctx=ast.Store())
+            node.body = [ast.Assign(targets=[tgt], value=ast.Name(id=name, ctx=ast.Load()))] + node.body
+        return node
+
+
+class _ListCompToLoop(ast.NodeTransformer):
+    """x = [e for a in b if c]  ->  x = []; for a in b: if c: x.append(e)   (plain name target, one generator)"""
+
+    def _fix(self, stmts):
+        out = []
+        for st in stmts:
+            if isinstance(st, ast.Assign) and len(st.targets) == 1 and isinstance(st.targets[0], ast.Name) and isinstance(st.value, ast.ListComp) \
+                    and len(st.value.generators) == 1 and not st.value.generators[0].is_async:
+                gen = st.value.generators[0]
+                name = st.targets[0].id
+                used = {n.id for n in ast.walk(st.value) if isinstance(n, ast.Name)}
+                if name in used:
+                    out.append(st)
+                    continue
+                body = [ast.Expr(value=ast.Call(func=ast.Attribute(value=ast.Name(id=name, ctx=ast.Load()), attr="append", ctx=ast.Load()),
+                                                args=[st.value.elt], keywords=[]))]
+                for c in reversed(gen.ifs):
+                    body = [ast.If(test=c, body=body, orelse=[])]
+                out.append(ast.copy_location(ast.Assign(targets=[ast.Name(id=name, ctx=ast.Store())], value=ast.List(elts=[], ctx=ast.Load())), st))
+                out.append(ast.copy_location(ast.For(target=gen.target, iter=gen.iter, body=body, orelse=[]), st))
+            else:
+                out.append(st)
+        return out
+
+    def generic_visit(self, node):
+        super().generic_visit(node)
+        for fld in ("body", "orelse", "finalbody"):
+            v = getattr(node, fld, None)
+            if isinstance(v, list) and v and isinstance(v[0], ast.stmt):
+                setattr(node, fld, self._fix(v))
+        return node
+
+
+class _ValuesAsItems(ast.NodeTransformer):
+    """for v in d.values(): BODY  ->  for _key, v in d.items(): BODY"""
+
+    def __init__(self):
+        self.k = 0
+
+    def visit_For(self, node):
+        self.generic_visit(node)
+        it = node.iter
+        if isinstance(it, ast.Call) and isinstance(it.func, ast.Attribute) and it.func.attr == "values" and not it.args:
+            self.k += 1
+            node.iter = ast.Call(func=ast.Attribute(value=it.func.value, attr="items", ctx=ast.Load()), args=[], keywords=[])
+            node.target = ast.Tuple(elts=[ast.Name(id=f"unused_key_{self.k}", ctx=ast.Store()), node.target], ctx=ast.Store())
+        return node
+
+
 GLOBAL_TRANSFORMS = {
     "unparse": lambda tree: tree,
     "flip-comparisons": lambda tree: _FlipCompare().visit(tree),
@@ -275,6 +349,10 @@ GLOBAL_TRANSFORMS = {
     "swap-eq": lambda tree: _SwapEq().visit(tree),
     "sub-as-add-neg": lambda tree: _SubAsAddNeg().visit(tree),
     "isinstance-split": lambda tree: _IsinstanceSplit().visit(tree),
+    "flip-ternary": lambda tree: _FlipTernary().visit(tree),
+    "unpack-in-body": lambda tree: _UnpackInBody().visit(tree),
+    "listcomp-to-loop": lambda tree: _ListCompToLoop().visit(tree),
+    "values-as-items": lambda tree: _ValuesAsItems().visit(tree),
 }
 
 
